@@ -66,6 +66,10 @@ func main() {
 		os.Exit(2)
 	}
 	theCtx = c
+	if *dump == "dyn" {
+		debugDyn(c)
+		return
+	}
 	if *dump != "" {
 		parts := strings.SplitN(*dump, ":", 2)
 		f := c.fn(parts[0], parts[1])
